@@ -1,7 +1,10 @@
 #!/bin/bash
 # usage: run.sh <ID> [quick|thorough] [--replay file]
 # Rebuilds the check for property <ID> from /repo's current working tree
-# (instrumentation by `go build -overlay`, /repo is never edited) and runs it.
+# (instrumentation by `go build -overlay`; /repo is never edited) and runs it.
+# VERIF_PATCH=<diff>: additionally overlay the files changed by a patch against
+# /repo (detection experiments / candidate fixes) -- /repo stays untouched and
+# evidence/replays go to the scratch dir instead of /verif.
 set -u
 ID="$1"; shift
 id=$(echo "$ID" | tr 'A-Z' 'a-z')
@@ -10,17 +13,44 @@ export VERIF_ROOT=/verif
 E=/verif/engine
 D=$E/checks/$id
 if [ ! -d "$D" ]; then echo "HARNESS-ERROR unknown check $ID" >&2; exit 2; fi
+[ -n "${VERIF_PATCH:-}" ] && VERIF_PATCH=$(readlink -f "$VERIF_PATCH")
 SCR=$(mktemp -d /dev/shm/verif-$id-XXXXXX)
 export VERIF_SCRATCH=$SCR TMPDIR=$SCR
 trap 'rm -rf "$SCR"' EXIT
 GO=go
 if [ -f "$D/GO126" ]; then GO=go1.26.8; export GOTOOLCHAIN=local; fi
-/verif/scripts/mkgomod.sh || { echo "HARNESS-ERROR go.mod generation failed" >&2; exit 2; }
+if [ ! -f $E/go.mod ] || [ /repo/go.mod -nt $E/go.mod ] || [ /repo/go.sum -nt $E/go.sum ]; then
+  /verif/scripts/mkgomod.sh || { echo "HARNESS-ERROR go.mod generation failed" >&2; exit 2; }
+fi
+if [ ! -x /verif/bin/overlaygen ]; then (cd $E && go build -o /verif/bin/overlaygen ./cmd/overlaygen) || exit 2; fi
 cd $E
+SPEC=""
+[ -f "$D/overlay.spec.json" ] && SPEC="$D/overlay.spec.json"
+if [ -n "${VERIF_PATCH:-}" ]; then
+  P=$(readlink -f "$VERIF_PATCH")
+  mkdir -p $SCR/patched $SCR/evidence $SCR/replays
+  export VERIF_EVIDENCE_DIR=$SCR/evidence VERIF_REPLAY_DIR=$SCR/replays
+  FILES=$(git -C /repo apply --numstat "$P" | awk '{print $3}')
+  for f in $FILES; do mkdir -p $SCR/patched/$(dirname $f); [ -f /repo/$f ] && cp /repo/$f $SCR/patched/$f; done
+  patch -s -p1 -d $SCR/patched < "$P" || { echo "HARNESS-ERROR patch does not apply" >&2; exit 2; }
+  python3 - "$SPEC" "$SCR" $FILES > $SCR/spec.json <<'PY'
+import json, os, sys
+spec, scr, files = sys.argv[1], sys.argv[2], sys.argv[3:]
+sp = json.load(open(spec)) if spec else {}
+base = os.path.dirname(spec) if spec else ''
+for k in ('add', 'replace', 'abs'):
+    for a in sp.get(k, []):
+        if not os.path.isabs(a['from']):
+            a['from'] = os.path.join(base, a['from'])
+for f in files:
+    tgt = 'replace' if os.path.exists('/repo/' + f) else 'add'
+    sp.setdefault(tgt, []).append({'to': f, 'from': os.path.join(scr, 'patched', f)})
+print(json.dumps(sp))
+PY
+  SPEC=$SCR/spec.json
+fi
 OV=""
-if [ -f "$D/overlay.spec.json" ]; then
-  SPEC="$D/overlay.spec.json"
-  if [ -n "${VERIF_MUTANT_SPEC:-}" ]; then SPEC="$VERIF_MUTANT_SPEC"; fi
+if [ -n "$SPEC" ]; then
   /verif/bin/overlaygen -repo /repo -spec "$SPEC" -out $SCR/ov || { echo "HARNESS-ERROR overlaygen failed" >&2; exit 2; }
   OV="-overlay $SCR/ov/overlay.json"
 fi
@@ -31,5 +61,4 @@ if ! $GO build $OV -tags verif -o $BIN ./checks/$id 2>$SCR/build.log; then
 fi
 cd /verif
 $BIN "$@"
-rc=$?
-exit $rc
+exit $?
